@@ -6,4 +6,6 @@ pub mod runner;
 pub mod util;
 pub mod lex;
 pub mod sqlite;
+pub mod parse;
+pub mod expr_spec;
 pub mod props;
